@@ -70,6 +70,10 @@ CHECKS = {
             "closest_point of every shape of the lattice families (all types, holes, mixed-dimension collections) for every query point of the half-step lattice extended beyond the box: Intersection(p) exactly when p is not exterior, otherwise a point on the geometry at the exact minimum distance, never Indeterminate. interior_point of every shape, of concave/sliver polygons on the 4x4 lattice, of polygons with touching holes and of the whole TJ(n) family (every lattice triangle shell x every triangular hole with one vertex in the interior of a shell edge, n=7 quick / 8 thorough): Some unless empty, intersects, strictly interior when the geometry has interior of its own dimension, no panic.",
             "Returned points are not lattice points and are judged with a 1e-9 tolerance. Known finding: the documented start-point choice for single segments (4 signatures).",
             "DESIGN.md §4 C12"),
+    "C19": ("E1-grid", "bounded exhaustive enumeration of type trees x coordinate functions x failing positions vs a recursive reference traversal",
+            "Every shape (type tree) over 19 (thorough 25) leaf shapes of the 10 types - empty members, polygons with 0-3 holes - in collections of up to 3 members nested to depth 2, filled with pairwise distinct coordinates, crossed with 6 coordinate functions and fallible functions failing at every position: coords_count, coords_iter, size_hint, exterior_coords_iter, lines_iter, map_coords, map_coords_in_place, try_map_coords (Ok and first-error), try_map_coords_in_place, bounding_rect, extremes - all against the reference traversal produced while building the geometry.",
+            "Rect is exempt from the traversal clause, as the property says. try_map_coords_in_place cannot be instantiated on Geometry/GeometryCollection (closure type recursion in the impl) and is exercised on the other nine types. Known finding: Triangle is re-normalised to CCW by map_coords.",
+            "DESIGN.md §4 C19"),
 }
 
 NOT_YET = "check not built yet in this round (planned: bounded exhaustive exploration, see DESIGN.md §4)"
